@@ -81,6 +81,9 @@ def gen(rng, index, tier):
     plan["variants"] = [{"seed": rng.getrandbits(32), "dup_p": rng.choice([0.0, 0.2, 0.5]), "batches": rng.choice([1, 2, 3, 5]),
                          "days": [rng.choice([0, 0, 1, -1, 30, -400]) for _ in range(5)]} for _ in range(nv)]
     every = 23 if tier == "quick" else 37
+    # part of the trace set may be stale (its argument class no longer exists): such rows are skipped,
+    # and where they sit among the valid rows must not matter either
+    plan["stale"] = rng.choice([0, 0, 1, 2])
     plan["interp"] = []
     if index % every == 3:
         plan["interp"] = [{"hashseed": rng.choice([0, 1, 12345, 4242]), "salt": rng.choice([0, 1, 7, 100, 1001]), "variant": rng.randrange(nv)} for _ in range(rng.choice([2, 3]))]
@@ -166,6 +169,21 @@ def execute(plan):
         sessions, path = E.run_sessions(plan, lp, workdir)
         rows0 = E.raw_rows(path)
         distinct = sorted({tuple(r[1:]) for r in rows0}, key=repr)
+        if plan.get("stale"):
+            pkgp = lp.spec["pkg"] + "."
+            extra = []
+            for r in distinct:
+                if len(extra) >= plan["stale"]:
+                    break
+                if r[2] and ('"module": "%s' % pkgp) in r[2]:
+                    import re as _re
+
+                    a2 = _re.sub(r'("module": "%s[^"]*", "qualname": ")[^"]+(")' % _re.escape(pkgp), r"\1GoneClass\2", r[2], count=1)
+                    if a2 != r[2]:
+                        extra.append((r[0], r[1], a2, r[3], r[4]))
+            if extra:
+                distinct = sorted(set(distinct) | set(extra), key=repr)
+                probes["trace set contains stale rows"] += 1
         results = collections.defaultdict(list)   # module -> [(label, rc, out, exc)]
         dbs = []
         for vi, variant in enumerate(plan["variants"]):
